@@ -210,7 +210,7 @@ func fieldsRead(u *U, e, p *E) []string {
 }
 
 func runC08(c *Ctx) {
-	c.Rule("C08.R1", "MULT", "each candidate emitted at most once and only if no collected badfilter rule negates it; the collection holds every badfilter rule", 2)
+	c.Rule("C08.R1", "MULT", "each candidate emitted at most once and only if no collected badfilter rule negates it; the collection holds every badfilter rule", 3)
 	c.Rule("C08.R2", "WIRE", "a rule with the badfilter option is never emitted", 1)
 	c.Rule("C08.R3", "COV/SYM", "twin test = conjunction of same-field comparisons covering every modifier field", 14)
 	c.Rule("C08.R4", "PDT", "option comparison removes exactly the badfilter bit", 1)
@@ -237,6 +237,19 @@ func runC08(c *Ctx) {
 
 	checkBadfilterFilter(c, filter, twin, kBad)
 	checkTwinComparison(c, "C08.R3", "C08.R4", twin, kBad)
+	if !c.noImports {
+		importRules(c, runC03, map[string]string{"C03.R8": "C08.R6"}, map[string]string{"C08.R6": "the '/*' normalisation acts on the pattern part only, so a rule and its $badfilter twin get equal patterns (shared with C03.R8)"})
+		importRules(c, runC01, map[string]string{"C01.R6": "C08.R8", "C01.R2": "C08.R8"}, map[string]string{"C08.R8": "the twin is indexed like any rule: tables decline only exact duplicates, first accepting table (shared with C01.R2/R6)"})
+	}
+	{
+		c.Rule("C08.R7", "EFF", "the filter never writes through its argument (the caller keeps the unfiltered list)", 1)
+		fs := aliasingWrites(c, []*ssa.Function{filter})
+		bad := ""
+		if len(fs) > 0 {
+			bad = fs[0]
+		}
+		c.Check(bad == "", "C08.R7", shortFn(filter)+": builds a fresh result", filter.Pos(), "no append / in-place operation on the parameter's backing array", bad)
+	}
 
 	// R5: filter applied first in both selectors
 	for _, sel := range []*ssa.Function{nmr, gdb} {
@@ -435,6 +448,38 @@ func checkBadfilterFilter(c *Ctx, filter, twin *ssa.Function, kBad int64) {
 			if l != candLoop && l.Blocks[candLoop.Header] {
 				c.Fail("C08.R1", key+": at most once", em.call.Pos(), "the candidate loop is nested inside another loop: each candidate is emitted once per outer iteration")
 			}
+		}
+		// the decision for this candidate must not depend on anything carried over from earlier candidates
+		{
+			idxPhis := map[*E]bool{}
+			for _, l := range loops {
+				if ct := countedLoop(u, s, l); ct != nil {
+					idxPhis[ct.Idx] = true
+				}
+				if ro := rangedOver(l); ro != nil {
+					if ph, ok := ro.Index.(*ssa.BinOp); ok {
+						if e := s.Env[ph.X]; e != nil {
+							idxPhis[e] = true
+						}
+					}
+					if ph, ok := ro.Index.(*ssa.Phi); ok {
+						if e := s.Env[ph]; e != nil {
+							idxPhis[e] = true
+						}
+					}
+				}
+			}
+			stale := ""
+			for _, at := range u.AtomsOf(rc) {
+				if u.Mentions(at, func(x *E) bool { return (x.Op == "loopphi" || x.Op == "loopval") && !idxPhis[x] && !u.Mentions(em.elem, func(y *E) bool { return y == x }) }) {
+					// collection φ values are fine (the badfilter list); flags are not
+					if !u.Mentions(at, func(x *E) bool { return x.Op == "len" || x.Op == "index" }) {
+						stale = clip(u.Show(at), 100)
+					}
+				}
+			}
+			c.Check(stale == "", "C08.R1", key+": decided per candidate", em.call.Pos(), "the emission condition reads nothing carried over from earlier iterations",
+				"whether a candidate is kept depends on a value carried over from earlier candidates ("+stale+"), e.g. a 'negated' flag that is not reset: once one rule is disabled, every later rule is dropped too")
 		}
 		// the scan over the collection: twin-test calls with arg == candidate inside a loop nested in candLoop
 		scanOK := false
